@@ -838,16 +838,31 @@ func (e *FnExec) qualifiedCallName(c *ssa.CallCommon, name string) string {
 	} else if len(c.Args) > 0 && c.Signature().Recv() != nil {
 		recv = c.Args[0]
 	}
+	suffix := "." + name
 	for recv != nil {
 		switch x := recv.(type) {
 		case *ssa.Parameter:
-			return x.Name() + "." + name
+			return x.Name() + suffix
 		case *ssa.UnOp:
+			if x.Op != token.MUL {
+				return ""
+			}
 			// a spilled parameter: load of the parameter's stack slot
-			if a, ok := x.X.(*ssa.Alloc); ok && x.Op == token.MUL {
+			if a, ok := x.X.(*ssa.Alloc); ok {
 				for _, p := range e.fn.Params {
 					if p.Name() == a.Comment {
-						return p.Name() + "." + name
+						return p.Name() + suffix
+					}
+				}
+				return ""
+			}
+			// a field of a parameter (p.f.M, p.f.g.M): load of a field address
+			if fa, ok := x.X.(*ssa.FieldAddr); ok {
+				if pt, ok := fa.X.Type().Underlying().(*types.Pointer); ok {
+					if stt, ok := pt.Elem().Underlying().(*types.Struct); ok {
+						suffix = "." + stt.Field(fa.Field).Name() + suffix
+						recv = fa.X
+						continue
 					}
 				}
 			}
